@@ -1313,7 +1313,7 @@ class Gen:
         if d != 0 or self.fc.loops:
             raise GenFail
         c = [v for v in env.vars.values() if v.fn is None and not v.readonly and not v.borrowed
-             and (self.kind(v.ty) == 0 or len(v.moved) == len(self.leaves(v.ty)))]
+             and (self.kind(v.ty) == 0 or (RISKY and len(v.moved) == len(self.leaves(v.ty))))]
         if not c:
             raise GenFail
         sh = self.fc.self_helper
@@ -1321,8 +1321,10 @@ class Gen:
         if not c:
             raise GenFail
         v = self.rng.choice(c)
-        # NB (finding) re-binding a variable that crossed a basic-block boundary at a *non-copyable*
-        # type is falsely rejected by /repo (AlreadyUsedError); only done when RISKY
+        # NB (finding) re-binding a variable that is live into the current basic block at a different
+        # type is falsely rejected by /repo when the old or the new type is non-copyable
+        # (`i = 0; while i < a: i += 1` then `i = array(1, 2)` -> AlreadyUsedError;
+        #  `if c: pass` then `b = measure(q); q = 3.25` -> PlaceNotUsedError); only done when RISKY
         ty = self.rand_ty() if RISKY else self.rand_classical()
         if ty == v.ty or ty[0] == "option":
             raise GenFail
